@@ -71,6 +71,10 @@ type Case struct {
 	// Procs: the number of processors the program sees (rule R11), 0 = the
 	// real one
 	Procs int `json:"procs,omitempty"`
+	// NoBase (s5): the generic function has no method on t at first - the
+	// callers' early calls find no applicable method (error handled) and
+	// must find the new method once it is defined (seeded change C17-m2)
+	NoBase bool `json:"no_base,omitempty"`
 	// ConsFirst (s1): the consumers and the closer are started before the
 	// producers they wait for
 	ConsFirst bool     `json:"cons_first,omitempty"`
@@ -191,6 +195,7 @@ func (e *engine) Generate(seed uint64, idx int, tier string, avoid []harness.Fin
 		c.Scen = "s5"
 		c.R = 1 + r.Intn(3) // calling routines
 		c.Iter = 1 + r.Intn(4)
+		c.NoBase = r.Pct(50)
 	case x < 82:
 		c.Scen = "s7"
 		c.R = 2 + r.Intn(3) // defining routines, one qualifier each
@@ -237,7 +242,7 @@ func (e *engine) Generate(seed uint64, idx int, tier string, avoid []harness.Fin
 	return b
 }
 
-var s4Kinds = []string{"defvar", "defun", "generic", "print", "print", "lambda", "exit", "exit", "defclass", "defflavor",
+var s4Kinds = []string{"defvar", "defun", "generic", "print", "print", "printobj", "lambda", "exit", "exit", "defclass", "defflavor",
 	"defstruct", "defpackage", "defconstant", "unbind", "apropos", "describe", "unintern", "lookup"}
 
 // ---- program generation ----
@@ -526,10 +531,20 @@ func (c *Case) program(sfx string) program {
 		// effective-method cache are interpreter tables shared by routines.
 		var setup strings.Builder
 		fmt.Fprintf(&setup, "(defgeneric sg%s (a))\n(defmethod sg%s ((a t)) 'base)\n(defmethod sg%s ((a string)) 'str)\n", sfx, sfx, sfx)
+		if c.NoBase {
+			setup.Reset()
+			fmt.Fprintf(&setup, "(defgeneric sg%s (a))\n(defmethod sg%s ((a string)) 'str)\n", sfx, sfx)
+		}
 		b.WriteString("(let ((fin (make-channel 64)))\n")
 		fmt.Fprintf(&b, " (run (progn (defmethod sg%s ((a fixnum)) 'new) (sim-emit \"defined\") (channel-push fin 0)))\n", sfx)
 		for t := 0; t < c.R; t++ {
-			fmt.Fprintf(&b, " (run (progn (dotimes (i %d) (sim-emit \"call\" %d (sg%s 1))) (channel-push fin %d)))\n", c.Iter, t, sfx, t+1)
+			call := fmt.Sprintf("(sg%s 1)", sfx)
+			if c.NoBase {
+				// no applicable method yet: reported as base (the primary value of
+				// ignore-errors is taken by passing it through an ordinary function)
+				call = fmt.Sprintf("(or (car (list (ignore-errors (sg%s 1)))) 'base)", sfx)
+			}
+			fmt.Fprintf(&b, " (run (progn (dotimes (i %d) (sim-emit \"call\" %d %s)) (channel-push fin %d)))\n", c.Iter, t, call, t+1)
 		}
 		fmt.Fprintf(&b, " (dotimes (i %d) (channel-pop fin))\n (sim-emit \"after\" (sg%s 1) (sg%s 2) (sg%s \"x\")) nil)\n", c.R+1, sfx, sfx, sfx)
 		return program{setup: setup.String(), main: b.String()}
@@ -555,6 +570,13 @@ func (c *Case) program(sfx string) program {
 		case "print":
 			body = fmt.Sprintf("(sim-emit \"r\" %d (write-to-string '(a%d (b \"c%d\" (d e f) #(1 2 %d)) 1.5 %d) :pretty t :right-margin 20) (write-to-string '(x%d (y . z) \"q\") :pretty nil) (format nil \"~a-~s-~d\" 'k%d \"s\" %d))",
 				t, t, t, t, t, t, t, t)
+		case "printobj":
+			// objects that print themselves, under let-bound printer
+			// variables, next to plain numbers printed with the defaults
+			// (seeded change C17-m1: settings handed to such objects through
+			// the shared default printer)
+			body = fmt.Sprintf("(let ((ht (make-hash-table)) (ch (make-channel 1))) (dotimes (i 3) (let ((*print-base* %d) (*print-case* :upcase)) (princ-to-string ht) (princ-to-string ch)) (sim-emit \"r\" %d (princ-to-string 255) (format nil \"~a ~s\" 254 'sym%d) (let ((*print-base* %d)) (princ-to-string 255)))))",
+				[]int{16, 8, 2}[t%3], t, t, []int{16, 8, 2}[t%3])
 		case "defclass":
 			body = fmt.Sprintf("(progn (defclass k%d%s () ((a :initform %d :accessor k%d%s-a))) (let ((o (make-instance 'k%d%s))) (setf (k%d%s-a o) (+ 1 (k%d%s-a o))) (sim-emit \"r\" %d (k%d%s-a o) (slot-value o 'a))))",
 				t, sfx, t*7, t, sfx, t, sfx, t, sfx, t, sfx, t, t, sfx)
